@@ -61,7 +61,7 @@ FAULT_VARIANTS = {
     "schema": ["bad-data-pkg", "bad-data-iface", "bad-data-entry", "custom-schema", "lookalike-iface", "lookalike-entry"],
     "exec": ["badexec", "badexec2", "badparse"],
     "format": ["badfmt-gofmt", "badfmt-goimports"],
-    "mkdir": ["failpoint"], "stat": ["failpoint"], "write": ["failpoint"],
+    "mkdir": ["failpoint", "parent-is-file"], "stat": ["failpoint"], "write": ["failpoint"],
 }
 # one cause shared by several output files (fault kind "shared"): every variant is replayed for a selected world
 SHARED_VARIANTS = {
@@ -77,6 +77,7 @@ LOOKALIKE = {"bool": {"testify": ("unroll-variadic", False, "false"), "matryer":
 # mockery is run the way a user runs it: the go command's default -mod=readonly (vlib's scratch default is -mod=mod, under
 # which the go command itself may rewrite go.mod / go.sum and a tool doing the same on purpose could not be told apart)
 USER_ENV = {"GOFLAGS": ""}
+_variant_turn = {}
 _dirseq = iter(range(1, 10 ** 9))
 _dirlock = threading.Lock()
 
@@ -100,10 +101,13 @@ def make_profiles(rng, n):
     out = []
     for i in range(n):
         layout = ["sep", "inpkg", "sepabs"][i % 3]
-        out.append({"id": i, "layout": layout,
-                    "tmpl": {f: rng.choice(["testify", "matryer", "custom", "customschema"]) for f in FILES},
-                    "fmt": {f: rng.choice(["goimports", "gofmt"]) for f in FILES},
-                    "double": rng.random() < 0.5})
+        tmpl = {f: rng.choice(["testify", "matryer", "custom", "customschema"]) for f in FILES}
+        out.append({"id": i, "layout": layout, "tmpl": tmpl,
+                    # formatters differ between the files of one run; noop only where the raw output is well-formed Go
+                    "fmt": {f: rng.choice(["goimports", "gofmt", "noop"] if tmpl[f].startswith("custom") else ["goimports", "gofmt"]) for f in FILES},
+                    "double": rng.random() < 0.5,
+                    # the mocks sharing a file reach it through DIFFERENT SPELLINGS of the same path (./x/../x/ vs x/)
+                    "spell": i % 2 == 1})
     return out
 
 
@@ -111,12 +115,19 @@ def choose(case, profiles, levels, rng, variant=None):
     """every random decision of the concretisation of one world (stored with the case; replay re-uses it)"""
     w = case["world"]
     prof = rng.choice(profiles)
-    ch = {"profile": prof["id"], "root": rng.choice(["unset", "unset", "T", "F"]),
-          "listing": {}, "levels": {}, "mocks_dir_exists": rng.random() < 0.5, "missing_in": rng.choice(FILES)}
     fault = w["fault"]
     if fault["kind"] == "stage":
-        variant = rng.choice(FAULT_VARIANTS[fault["at"]])
-    elif fault["kind"] == "shared" and variant is None:
+        # variants of a stage's fault are taken in turn (not drawn), so that the quick sample meets every one of them
+        k = _variant_turn[fault["at"]] = _variant_turn.get(fault["at"], -1) + 1
+        variant = FAULT_VARIANTS[fault["at"]][k % len(FAULT_VARIANTS[fault["at"]])]
+        if fault["at"] == "mkdir" and w["fs0"][fault["file"]] == "absent":
+            variant = "parent-is-file"      # the natural fault wherever it is possible: an absent path below ...
+            prof = rng.choice([q for q in profiles if q["layout"] != "inpkg"])      # ... a separate output directory
+        elif variant == "parent-is-file":
+            variant = "failpoint"
+    ch = {"profile": prof["id"], "root": rng.choice(["unset", "unset", "T", "F"]),
+          "listing": {}, "levels": {}, "mocks_dir_exists": rng.random() < 0.5, "missing_in": rng.choice(FILES)}
+    if fault["kind"] == "shared" and variant is None:
         variant = rng.choice(SHARED_VARIANTS[fault["at"]])
     ch["variant"] = variant
     ch["lookalike"] = rng.choice(["bool", "int"])
@@ -129,6 +140,8 @@ def choose(case, profiles, levels, rng, variant=None):
             listing = rng.choice(["listed", "all+listed"])
         if f == "f3" and prof["double"] and listing == "all":
             listing = rng.choice(["listed", "all+listed"])      # two config entries (two mocks of C) need the interface listed
+        if f == "f1" and prof.get("spell") and listing == "all":
+            listing = rng.choice(["listed", "all+listed"])      # the differently spelled dir is written at interface level
         ch["listing"][f] = listing
         want = bool(w["force"][f])
         per_iface = {}
@@ -146,6 +159,8 @@ def choose(case, profiles, levels, rng, variant=None):
             pkgval = a["pkg"]
             per_iface[i] = a
         ch["levels"][f] = per_iface
+    # existing user / generated content that the output path reaches through a symbolic link (separate layouts only)
+    ch["via_symlink"] = {f: (prof["layout"] != "inpkg" and w["fs0"][f] in ("gen", "user") and rng.random() < 0.3) for f in FILES}
     ch["bad_iface"] = rng.choice(IFACES[fault["file"]]) if fault["kind"] == "stage" else None
     return ch
 
@@ -216,6 +231,13 @@ def build(root, case, ch, profiles, clean=False):
             if not clean and a["entry"] != "unset":
                 for e in entries:
                     e["force-file-write"] = tf(a["entry"])
+            if prof.get("spell"):
+                alt = {"sep": "./mocks/../mocks/{{.SrcPackageName}}/.", "sepabs": A + "/mocks/x/../{{.SrcPackageName}}//",
+                       "inpkg": "{{.InterfaceDir}}/../{{.SrcPackageName}}"}[layout]
+                if f == "f1" and i == IFACES[f][0]:
+                    ic.setdefault("config", {})["dir"] = alt
+                if f == "f3" and len(entries) == 2:
+                    entries[1]["dir"] = alt
             if entries:
                 ic["configs"] = entries
             icfgs[i] = ic
@@ -267,6 +289,8 @@ def build(root, case, ch, profiles, clean=False):
                 ic["configs"][-1]["template-data"] = {key: bad}
         elif variant == "failpoint":
             failspec = f"{fault['at']}:{out_rel(lay, f)}"
+        elif variant == "parent-is-file":
+            files[f"mocks/{PKG[f]}"] = "a regular file where the output directory would have to be created\n"
         if shared:
             # ONE template / schema / template-data for every file in fault.files: identical values, written once at
             # the top level (when all files share) or repeated at package level
@@ -349,39 +373,45 @@ class Replayer:
             ch = {"profile": pid, "root": "unset", "listing": {f: "listed" for f in FILES},
                   "levels": {f: {i: {"root": "unset", "pkg": "unset", "iface": "unset", "entry": "unset"} for i in IFACES[f]} for f in FILES},
                   "mocks_dir_exists": False, "missing_in": "f1", "variant": None, "bad_iface": None}
+            # run 0: the three files together; runs 1..3: each file's package ALONE.  "Complete new content" of a path is
+            # what a run that produces only that file writes: nothing another file's settings, order or leftovers can leak into.
             contents = []
-            for k in range(2):
+            for k, only in enumerate([None] + FILES):
                 d = newdir(ctx, f"ref{pid}-")
                 files, conf, des, _ = build(d, case, ch, self.profiles, clean=True)
+                if only is not None:
+                    conf["packages"] = {k2: v for k2, v in conf["packages"].items() if k2 == f"{MOD}/{PKG[only]}"}
                 self.materialise(d, files, conf)
                 r = pipetrace.run(ctx, d, env=USER_ENV)
                 with self.runlock:
-                    self.runs.append((r, f"reference-profile-{pid}-run{k}"))
+                    self.runs.append((r, f"reference-profile-{pid}-{only or 'all'}"))
                 got = {}
                 for f in FILES:
                     p = d / des[f]
                     got[f] = p.read_text() if p.is_file() else None
                 contents.append((r, got))
             r, got = contents[0]
+            alone = {f: contents[1 + i][1][f] for i, f in enumerate(FILES)}
             # the content written for a path must be the mocks of THAT file (guards the old-or-new oracle itself)
             prof = self.profiles[pid]
             want = {"f1": ["MockA1", "MockA2"], "f2": ["MockB"], "f3": ["MockC1", "MockC2"] if prof["double"] else ["MockC"]}
             allnames = {n for v in want.values() for n in v}
-            wrong = [f for rr, g in contents for f in FILES if g[f] and
+            wrong = [f for g in (got, alone) for f in FILES if g[f] and
                      ({n for n in allnames if re.search(r"\btype\s+" + n + r"\b", g[f])} != set(want[f]))]
-            if wrong and not (r.panicked or r.code != 0):
+            bad_run = next((rr for rr, _ in contents if rr.panicked or rr.code != 0), None)
+            if wrong and bad_run is None:
                 res = {"error": {"exit": r.code, "wrong_content_for": sorted(set(wrong)), "profile": prof,
                                  "content_head": {f: (got[f] or "")[:300] for f in sorted(set(wrong))}}}
-                self.refs[pid] = res
-                return res
-            if r.panicked or r.code != 0 or any(v is None or not v.strip() for v in got.values()):
-                res = {"error": {"exit": r.code, "panic": r.panicked, "missing_files": [f for f, v in got.items() if not v],
-                                 "profile": self.profiles[pid], "output": (r.err + r.out)[-1500:]}}
-            elif contents[1][1] != got:
-                raise MachineryError("two unfaulted runs of the same world wrote different bytes (nondeterminism is C06's "
-                                     "business; the old-or-new oracle needs stable content)")
+            elif bad_run is not None or any(v is None or not v.strip() for v in list(got.values()) + list(alone.values())):
+                rr = bad_run or r
+                res = {"error": {"exit": rr.code, "panic": rr.panicked, "missing_files": [f for f, v in got.items() if not v],
+                                 "profile": prof, "output": (rr.err + rr.out)[-1500:]}}
+            elif alone != got:
+                differ = [f for f in FILES if alone[f] != got[f]]
+                res = {"error": {"exit": r.code, "content_depends_on_the_other_files_of_the_run": differ, "profile": prof,
+                                 "together": {f: got[f][:400] for f in differ}, "alone": {f: alone[f][:400] for f in differ}}}
             else:
-                res = {"content": got}
+                res = {"content": alone}
             self.refs[pid] = res
             return res
 
@@ -410,21 +440,33 @@ class Replayer:
         ref = ref["content"]
         d = newdir(ctx, "w")
         files, conf, des, failspec = build(d, case, ch, self.profiles)
+        links = {}
         for f in FILES:
             st = w["fs0"][f]
-            if st in ("gen", "user"):
+            if st in ("gen", "user") and ch.get("via_symlink", {}).get(f):
+                files[f"linked/{f}_target.go"] = old_content(st, f, lay, ref)
+                links[des[f]] = f"../../linked/{f}_target.go"
+            elif st in ("gen", "user"):
                 files[des[f]] = old_content(st, f, lay, ref)
             elif st == "dir":
                 files[des[f] + "/keep.txt"] = "a file inside a directory that occupies the output path\n"
         self.materialise(d, files, conf)
+        for rel, target in links.items():
+            (d / rel).parent.mkdir(parents=True, exist_ok=True)
+            os.symlink(target, d / rel)
         before, mbefore = tree_hash(d), modes(d)
         r = pipetrace.run(ctx, d, env=USER_ENV, fail=failspec)
         after, mafter = tree_hash(d), modes(d)
         # files whose content differs afterwards, spelled the way the hooks spell output paths (relative to the working
         # directory in the "sep" layout, absolute otherwise): input of the run-level clause only-written-files-changed
+        link_targets = {f"linked/{f}_target.go" for f in FILES if links.get(des[f])}
+        # (a forced overwrite written through a symbolic link changes the link's target: which of the two a tool writes is
+        #  left open by the statement, so the target is not reported to the run-level clause; the tree judgement below
+        #  still demands that it holds either its old or the complete new content)
         r.changed = [rel if prof["layout"] == "sep" else str(d / rel)
                      for rel in sorted(set(before) | set(after))
-                     if before.get(rel) != after.get(rel) and before.get(rel) != "DIR" and after.get(rel) != "DIR"]
+                     if before.get(rel) != after.get(rel) and before.get(rel) != "DIR" and after.get(rel) != "DIR"
+                     and rel not in link_targets]
         with self.runlock:
             self.runs.append((r, item["id"]))
         out = []
@@ -456,6 +498,8 @@ class Replayer:
             else:
                 o = "other"
             outcome[f] = o
+            if o == "old" and links.get(rel) and not os.path.islink(d / rel) and "new" not in exp["final"][f]:
+                o = "other"     # the link itself was replaced although the path had to be left alone
             if o not in exp["final"][f]:
                 role = "faulted-file" if f in fault.get("files", ()) else "other-file"
                 got_txt = (d / rel).read_text(errors="replace")[:400] if (d / rel).is_file() else str(a)
@@ -479,6 +523,9 @@ class Replayer:
                 out.append((dict(base_sig, kind="frame", what="parent-directory-replaced"), dict(detail, path=rel, before=b, after=a)))
                 continue
             what = "created" if b is None else "deleted" if a is None else "modified"
+            lf = next((f for f in FILES if links.get(des[f]) and rel == f"linked/{f}_target.go"), None)
+            if lf and outcome[lf] == "new" and (d / rel).is_file() and (d / rel).read_text(errors="replace") == ref[lf]:
+                continue        # forced overwrite written THROUGH the link: the statement does not say link or target
             if rel in pipetrace.MODULE_FILES:
                 out.append((dict(base_sig, kind="frame", what=what, cls="module-file", path=rel, untidy=fault.get("feature", "-")),
                             dict(detail, path=rel, before=b, after=a)))
@@ -515,7 +562,7 @@ def stratum(case):
         return ("shared", fl["at"], len(fl["files"]), wr, wr == "all" and any(w["fs0"][f] != "absent" for f in fl["files"]))
     if fl["kind"] == "stage":
         f = fl["file"]
-        return ("stage", fl["at"], w["fs0"][f], w["force"][f])
+        return ("stage", fl["at"], w["fs0"][f], w["force"][f]) + (("with-missing-interface",) if w["missing"] else ())
     if w["missing"]:
         return ("missing-interface", any(w["fs0"][f] != "absent" and not w["force"][f] for f in FILES))
     return ("none", tuple(sorted(cls(w, f) for f in FILES)))
@@ -619,7 +666,7 @@ def run(ctx):
     tp = time.time()
     cases = r_cases.prints("CASE")
     phase["wait_and_parse_cases"] = round(time.time() - tp, 1)
-    if len(cases) < 19000:
+    if len(cases) < 22000:
         raise MachineryError(f"only {len(cases)} worlds exported")
     vacuity(cases)
 
